@@ -171,6 +171,12 @@ func (c C12) Run(t *tape.Tape, opt core.RunOpt) (res core.Result) {
 			pool = append(pool, &workload.Request{Src: workload.CycleRequests[t.Draw(len(workload.CycleRequests))]})
 		}
 		res.Count("runs_type_cycle_requests", 1)
+	} else if t.Bool(1, 12) {
+		// introspection requests that differ only inside a same-named fragment
+		pool = pool[:0]
+		for k := 0; k < 2+t.Draw(2); k++ {
+			pool = append(pool, &workload.Request{Src: workload.MetaTwinRequests[t.Draw(len(workload.MetaTwinRequests))]})
+		}
 	} else if strat == workload.StratReflect && t.Bool(1, 10) {
 		// one Go struct behind two GraphQL types, by value and by pointer
 		pool = pool[:0]
